@@ -153,9 +153,12 @@ META2 = {
     "C14": dict(
         engine=E2,
         explanation="s_step.c: in HOLD no io->read happens; hold is left only if a release was requested (status != 0 or an event handler asked in this call), straight into the matching result code; a pending "
-                    "request is honoured in the next call; entering hold clears any stale request. s_api.c: cat_hold_exit outside a hold = ERROR_NOT_HOLD and no effect, inside = records the status only.",
-        bounds={"quick": "60 jobs: HOLD x all event states, the four handler loops, event handler loops", "thorough": "same"},
-        outside="line-level scenario with a queued second line (step level only); event handlers returning HOLD are outside the property",
+                    "request is honoured in the next call; entering hold clears any stale request. s_api.c: cat_hold_exit outside a hold = ERROR_NOT_HOLD and no effect, inside = records the status only."
+                    " r_hold.c (black box, public API): each of the four handler kinds returns HOLD with a second line already waiting; release through cat_hold_exit at a symbolic step "
+                    "of a window, symbolic status, optionally twice in one step with different statuses, optional spurious releases before and after: no input byte and no result code during the "
+                    "suspension, cat_is_hold = HOLD exactly then, one result code matching the last requested status, then the second line is parsed and answered.",
+        bounds={"quick": "60 step jobs (HOLD x all event states, the four handler loops, event handler loops) + 4 line-level jobs (release window right after the hold begins)", "thorough": "5 release windows per kind"},
+        outside="release through an event handler returning HOLD_EXIT_* at line level (step level only); event handlers returning HOLD are outside the property",
         assumptions=[RI_NOTE, FAMILY],
         level_text="inductive step obligations"),
     "C15": dict(
